@@ -114,6 +114,10 @@ class Documents(HypPart):
         return {'tape': b[:-8].hex(), 'opts': {}, 'top': t.weighted([(3, 1), (3, 2), (1, 3)]),
                 'toc': {'depth': t.weighted([(2, 5), (1, 1), (2, 2), (2, 3), (1, 4), (1, 6)]), 'omit_title': not t.chance(110), 'filters': filters}}
 
+    def describe(self, case):
+        opts = {'outline': True, 'outline_top': int(case.get('top', 1)), 'top_blocks': 10, 'exclude': c03.Documents().excludes()}
+        return 'toc options %r\n%s' % (case.get('toc'), c03.build(case, opts)[1])
+
     def check(self, case):
         return check_case(case)
 
